@@ -29,12 +29,24 @@ package message
 //@   assumes  decoding is a function of (codec, payload bytes, version): the clause `(err == nil) == ufDecodable(...)` DEFINES ufDecodable for callers and is not an obligation here
 
 //@ func (*ReadWriter).Write
-//@   requires rw != nil && msg != nil
-//@   ensures  res != nil && freshPtr(res) && res.ID == msg.GetID()
-//@   ensures  len(res.Payload) <= 255 && freshBytes(res.Payload)
+//@   requires rw != nil && msg != nil && specCodecInv(rw)
+//@   ensures  [raw-result] res != nil && freshPtr(res) && res.ID == msg.GetID()
+//@   ensures  [payload-size] len(res.Payload) <= 255 && freshBytes(res.Payload)
+//@   ensures  [v1-exact-size] !isV2 ==> len(res.Payload) == int(rw.sizeNormal)
+//@   ensures  [v2-never-empty] isV2 && rw.sizeExtended >= 1 ==> len(res.Payload) >= 1 && len(res.Payload) <= int(rw.sizeExtended)
+//@   ensures  [v2-only-zeros-stripped] isV2 && len(res.Payload) > 1 ==> res.Payload[len(res.Payload)-1] != 0
 //@   modifies nothing
-//@   trusted
+//@   loop 0 bind i int = rangeindex
+//@   loop 0 invariant -1 <= i && i < len(rw.fields)
+//@   loop 0 modifies-fresh
+//@   loop 1 invariant true
+//@   loop 1 modifies-fresh
 //@   assumes  msg has the dynamic type the codec was initialised with (otherwise reflect panics; the public API does not check it)
+
+//@ func writeValue
+//@   modifies buf[:]
+//@   trusted
+//@   assumes  writeValue writes only inside buf; its result and its own bounds checks are not decided here (see C03/C04 notes)
 
 //@ func removeEmptyBytes
 //@   ensures  sameArray(res, buf) && len(res) <= len(buf)
